@@ -2,7 +2,7 @@
 own mock dataplane, in-package overlay driver)."""
 import copy
 
-from vlib import pipeline
+from vlib import core, pipeline
 
 
 def signature(t_id, events, off, reason):
@@ -39,12 +39,12 @@ P = {
     "specdir": "reconcile_ipsets",
     "design": [{"module": "I_RIPSets", "cfg": "MC_quick.cfg", "thorough_cfg": "MC_thorough.cfg", "workers": 4,
                 "heap": "4g", "timeout": 400, "thorough_timeout": 1700,
-                # single-member add/remove by the caller is only in the larger menus (thorough config)
+                # single-member add/remove by the caller is only enabled in the thorough config
                 "allow_zero": ("IAdd", "IDel")}],
     "gen": {"module": "Gen_RIPSets", "cfg": "Gen_cover.cfg", "thorough_cfg": "Gen_cover4.cfg", "workers": 1,
             "max": 250, "thorough_max": 5000, "timeout": 400, "thorough_timeout": 1500},
     "driver": {"overlay_pkg": "felix/ipsets", "run": "^TestVerifC16$", "timeout": 1500},
-    "n_random": (150, 4000),
+    "n_random": (150, 2000),
     "trace": {"module": "T_RIPSets", "cfg": "T_RIPSets.cfg", "timeout": 900, "heap": "4g"},
     "chunk": 60000,
     "signature": signature,
@@ -75,14 +75,26 @@ P = {
 
 
 def run(ctx):
-    pipeline.standard_check(ctx, P)
+    # one driver run (the overlay test binary is compiled once) and one validation for both TLC generators
+    sim_behs = []
     if not ctx.replay:
-        P2 = dict(P)
-        P2["design"] = []
-        P2["gen"] = {"module": "Gen_RIPSets", "cfg": "Gen_sim.cfg", "simulate": {"num": 60, "depth": 18},
-                     "thorough_simulate": {"num": 2500, "depth": 18}, "timeout": 400, "thorough_timeout": 1500}
-        P2["n_random"] = (0, 0)
-        pipeline.standard_check(ctx, P2)
+        sim = {"num": 60, "depth": 18} if ctx.quick else {"num": 1000, "depth": 18}
+        r = core.tlc(P["specdir"], "Gen_RIPSets", "Gen_sim.cfg", workers=1, simulate=sim, seed=ctx.seed,
+                     timeout=400 if ctx.quick else 1500, heap="4g")
+        if r.violated and r.violated != "deadlock":
+            raise core.HarnessError("generator spec problem (simulate): %s\n%s" % (r.violated, r.out[-2000:]))
+        sim_behs = r.behaviours
+        ctx.notes["simulate_behaviours_from_tlc"] = len(sim_behs)
+    ncover = 250 if ctx.quick else 2500
+
+    def sel(behs, rnd):
+        keep = behs if len(behs) <= ncover else rnd.sample(behs, ncover)
+        ctx.notes["cover_behaviours_selected"] = len(keep)
+        return keep + sim_behs
+
+    Pq = dict(P)
+    Pq["gen"] = dict(P["gen"], select=sel, max=None, thorough_max=None)
+    pipeline.standard_check(ctx, Pq)
 
 
 def selftest(ctx):
@@ -160,11 +172,19 @@ def selftest(ctx):
                 evs[j]["kernel"]["cali40zz"] = {"type": "hash:ip", "max": 1234, "members": []}
                 return evs
 
-    def drop_swap(evs):
-        # the swap line of a temp-set replacement is lost: the parameters never change
+    def params_not_replaced(evs):
+        # after a temp-set swap the main set still shows the old maxelem
         for i, e in enumerate(evs):
             if e["ev"] == "cmd" and e["kind"] == "swap" and e["ok"]:
-                return evs[:i] + evs[i + 1:]
+                n = e["set"]
+                j = i
+                while j < len(evs) and evs[j]["t"] == e["t"] and evs[j]["ev"] == "cmd":
+                    j += 1
+                if j < len(evs) and evs[j]["ev"] == "updates_end" and evs[j]["ok"] and n in evs[j - 1]["kernel"]:
+                    for x in evs[i:j]:
+                        if n in x["kernel"]:
+                            x["kernel"][n]["max"] = 4321
+                    return evs
 
     def deep(fn):
         return lambda evs: fn(copy.deepcopy(evs))
@@ -172,7 +192,7 @@ def selftest(ctx):
     return pipeline.corruption_selftest(ctx, P, [(n, deep(f)) for n, f in [
         ("touch_foreign", touch_foreign), ("destroy_desired", destroy_desired),
         ("empty_before_fill", empty_before_fill), ("wrong_member_at_end", wrong_member_at_end),
-        ("stray_not_deleted", stray_not_deleted), ("drop_swap", drop_swap)]], n_random=60)
+        ("stray_not_deleted", stray_not_deleted), ("params_not_replaced", params_not_replaced)]], n_random=60)
 
 
 MANIFEST = dict(
